@@ -195,6 +195,17 @@ def run(ctx):
                 i0 = init[1] if isinstance(init, tuple) else init          # pointer walks: offset from the row / column start
                 if T is not None and T == Poly.atom(f'arg{cnt}') and i0 is not None and i0.is_zero():
                     okh = True
+                elif T is not None and T == Poly.atom(f'arg{cnt}') and i0 is not None and i0 == Poly.atom(f'arg{cnt}') and step == Poly.const(-1):
+                    # count-down form: the counter runs arg .. 1; the walk itself is done by pointers, which must start at the
+                    # beginning of what they were given (offset 0 from their argument)
+                    ptr_inits = []
+                    for ph in L.phis:
+                        if ph.ty.endswith('*'):
+                            rec = L.ivs().get(ph.res)
+                            pi0 = rec[0] if rec is not None else None
+                            ptr_inits.append(pi0[1] if isinstance(pi0, tuple) else pi0)
+                    if ptr_inits and all(x is not None and (x.is_zero() or not any(a_.startswith('%') for a_ in x.atoms())) for x in ptr_inits):
+                        okh = True
         if okh:
             r.ok(inst, func=hf.name, loc=hf.mod.src)
         else:
